@@ -17,6 +17,8 @@ type Op struct {
 	Blocks []int  `json:"blocks,omitempty"`
 	Num    uint64 `json:"num,omitempty"`
 	Ms     int64  `json:"ms,omitempty"`
+	Mut    int    `json:"mut,omitempty"` // mutant: which single-field corruption
+	Arg    uint64 `json:"arg,omitempty"`
 }
 
 // Plan is the complete, explicit description of one chain-level execution.
@@ -62,6 +64,8 @@ func drawGap(rng *kernel.RNG, style int) int64 {
 		return gapSet[rng.Intn(5)]
 	case 1: // slow
 		return gapSet[5+rng.Intn(5)]
+	case 3: // very slow
+		return gapSet[8+rng.Intn(2)]
 	}
 	return gapSet[rng.Intn(len(gapSet))]
 }
@@ -144,9 +148,30 @@ func GenRecipe(rng *kernel.RNG, o GenOpts) Recipe {
 		return ids
 	}
 	mainStyle := rng.Intn(3)
+	shortHeavy := rng.Bool(0.3) && main >= 5
+	if shortHeavy {
+		mainStyle = 3 // very slow: difficulty falls as fast as the epoch allows
+	}
 	mainIDs := addBranch(0, main, mainStyle)
 	forks := rng.Intn(o.MaxForks + 1)
 	all := append([]int{0}, mainIDs...)
+	if shortHeavy {
+		// a fast branch that ends one or two blocks below the slow main branch
+		d := rng.Range(4, 12)
+		if d > main {
+			d = main
+		}
+		length := d - 1
+		if d >= 8 && rng.Bool(0.4) {
+			length = d - 2
+		}
+		from := 0 // genesis when the whole main branch is contested
+		if main-d > 0 {
+			from = mainIDs[main-d-1]
+		}
+		ids := addBranch(from, length, 0)
+		all = append(all, ids...)
+	}
 	for f := 0; f < forks; f++ {
 		// fork point: biased to the recent half of what exists
 		var from int
@@ -278,6 +303,60 @@ func ShrinkPlan(pa any) []any {
 		q := &Plan{}
 		json.Unmarshal(b, q)
 		return q
+	}
+	// 0. drop every universe block no operation refers to (and that no referenced
+	// block descends from), in one step
+	{
+		n := len(p.Recipe.Blocks)
+		keep := make([]bool, n+1)
+		keep[0] = true
+		for _, op := range p.Ops {
+			for _, b := range op.Blocks {
+				for x := b; x > 0 && x <= n && !keep[x]; x = p.Recipe.Blocks[x-1].Parent {
+					keep[x] = true
+				}
+			}
+		}
+		for id := 1; id <= n; id++ {
+			if keep[id] {
+				for _, uid := range p.Recipe.Blocks[id-1].Uncles {
+					for x := uid; x > 0 && x <= n && !keep[x]; x = p.Recipe.Blocks[x-1].Parent {
+						keep[x] = true
+					}
+				}
+			}
+		}
+		ren := make([]int, n+1)
+		next := 0
+		for id := 1; id <= n; id++ {
+			if keep[id] {
+				next++
+				ren[id] = next
+			}
+		}
+		if next < n {
+			q := clone()
+			q.Recipe.Blocks = nil
+			for id := 1; id <= n; id++ {
+				if !keep[id] {
+					continue
+				}
+				b := p.Recipe.Blocks[id-1]
+				b.Parent = ren[b.Parent]
+				var un []int
+				for _, x := range b.Uncles {
+					un = append(un, ren[x])
+				}
+				b.Uncles = un
+				q.Recipe.Blocks = append(q.Recipe.Blocks, b)
+			}
+			for i := range q.Ops {
+				for j := range q.Ops[i].Blocks {
+					q.Ops[i].Blocks[j] = ren[q.Ops[i].Blocks[j]]
+				}
+			}
+			out = append(out, q)
+		}
 	}
 	// 1. drop ops (chunks then singles), from the end first
 	for size := len(p.Ops) / 2; size >= 1; size /= 2 {
